@@ -270,3 +270,66 @@ def _c19_step_replay(fn, args):
         return not (r == (args["since"] + 1 > args["patience"]) and sc.epochs_since_best == args["since"] + 1 and sc.best_model == "old")
     except Exception:  # noqa: BLE001
         return True
+
+
+def train_protocol_check(cx):
+    """Concrete run of the real ml.train on a tiny model (validation of the call protocol the CrossHair model assumes):
+    first call before any epoch with no losses, then one call per epoch with increasing epoch numbers and scalar losses;
+    training terminates on a non-improving history exactly where the reference machine says; the returned model is the
+    condition's best_model."""
+    import jax
+    import jax.numpy as jnp
+    import optax
+    import ginjax.geometric as geom
+    import ginjax.ml as ml
+    import ginjax.models as models
+    from xhair import c19_stop
+    D, N = 2, 4
+    ops = geom.make_all_operators(D)
+    bank = geom.get_invariant_filters([3], [0, 1], [0], D, ops)
+    sig = geom.Signature((((0, 0), 1),))
+    layer = ml.ConvContract(sig, sig, bank, False, key=jax.random.PRNGKey(0))
+
+    class Wrap(models.MultiImageModule):
+        layer: ml.ConvContract
+
+        def __call__(self, x, aux=None):
+            return self.layer(x), aux
+
+    def map_and_loss(model, x, y, aux):
+        out = jax.vmap(lambda xx: model(xx)[0])(x)
+        return ml.smse_loss(out, y), aux
+    X = geom.MultiImage({(0, 0): jnp.ones((4, 1, N, N))}, D, True)
+    Y = geom.MultiImage({(0, 0): 2 * jnp.ones((4, 1, N, N))}, D, True)
+    results = []
+    for kind, patience, lr in (("train", 0, 0.0), ("train", 2, 0.0), ("val", 1, 0.0), ("epoch", 3, 1e-3)):
+        calls = []
+        base = {"train": ml.TrainLoss, "val": ml.ValLoss, "epoch": ml.EpochStop}[kind]
+
+        class Rec(base):
+            def stop(self, model, epoch, tl, vl, t):
+                calls.append((epoch, None if tl is None else float(tl), None if vl is None else float(vl), model))
+                if len(calls) > 12:
+                    raise RuntimeError("training did not stop within 12 epochs")
+                return super().stop(model, epoch, tl, vl, t)
+        sc = Rec(patience) if kind == "epoch" else Rec(patience=patience)
+        try:
+            out_model, _, tl, vl = ml.train(X, Y, map_and_loss, Wrap(layer), jax.random.PRNGKey(1), sc, 2, optax.sgd(lr),
+                                            validation_X=X if kind == "val" else None, validation_Y=Y if kind == "val" else None)
+        except RuntimeError as e:
+            results.append((False, f"{kind} patience={patience} lr={lr}: {e}"))
+            continue
+        ok = calls[0][0] == 0 and calls[0][1] is None and [c[0] for c in calls] == list(range(len(calls)))
+        if kind == "epoch":
+            ok = ok and len(calls) == patience + 1 and out_model is calls[-1][3]
+            det = f"EpochStop({patience}): {len(calls) - 1} epochs run"
+        else:
+            losses = [c[1] if kind == "train" else c[2] for c in calls[1:]]
+            efirst, ebest = c19_stop.ref_run(losses, patience, 0.0)
+            ok = ok and efirst == len(losses) - 1 and out_model is calls[1 + ebest][3]
+            det = f"{kind} patience={patience} lr={lr}: losses {losses} stopped after {len(losses)} epochs (spec {efirst + 1}), best epoch {ebest}"
+        results.append((bool(ok), det))
+    bad = [d for ok, d in results if not ok]
+    cx.validated_against_impl(len(results))
+    cx.structural("ml.train call protocol and termination on a tiny model (concrete runs)", not bad, "; ".join(bad) or "; ".join(d for _, d in results),
+                  key="stop:train-protocol")
